@@ -38,7 +38,8 @@ size_t libwifi_create_radiotap(struct libwifi_radiotap_info *info, char *radiota
         if (presence_bit & 1) {
             // Pad up to the next multiple of the field's alignment
             uint8_t align = radiotap_ns.align_size[field].align;
-            uint8_t padding = (align - (offset % align)) % align;
+            // Fields without an alignment entry (e.g. bit 18) carry no data here
+            uint8_t padding = (align > 0) ? (align - (offset % align)) % align : 0;
             if (padding > 0) {
                 memset(rtap_data + offset, 0, padding);
                 offset += padding;
